@@ -12,7 +12,8 @@ META = {
 }
 
 KINDS = {"u": "Undefined", "n": "None", "t": "Bool", "f": "Bool", "U64": "Number", "I64": "Number", "U128": "Number",
-         "I128": "Number", "F": "Number", "Ss": "String", "Sn": "String", "Sf": "String", "Y": "Bytes", "P": "Plain"}
+         "I128": "Number", "F": "Number", "Ss": "String", "Sn": "String", "Sf": "String", "Y": "Bytes", "P": "Plain",
+         "us": "Undefined", "C": "Plain", "X": "Invalid"}
 CLOSE = {"[": "]", "(": ")", "<": ">"}
 CLASS = {"[": "Seq", "(": "Tuple", "<": "Iterable"}
 
@@ -27,7 +28,7 @@ def parse(enc):
         if c in CLOSE:
             cls, close = CLASS[c], CLOSE[c]
             pos += 1
-            if c == "<" and enc[pos] == "?":
+            if (c == "<" and enc[pos] in "?!") or (c == "[" and enc[pos] == "="):
                 pos += 1
             items = []
             if enc[pos] == close:
@@ -41,6 +42,8 @@ def parse(enc):
                     return ("list", cls, items)
         if c == "{":
             pos += 1
+            if enc[pos] == "=":
+                pos += 1
             ps = []
             if enc[pos] == "}":
                 pos += 1
@@ -108,7 +111,9 @@ def first_diff(a, b):
         return "~".join(sorted([a[1], b[1]]))
     if a[0] == "map" and b[0] == "map":
         if sorted(unparse(k) + ":" + unparse(v) for k, v in a[1]) == sorted(unparse(k) + ":" + unparse(v) for k, v in b[1]):
-            return "map-insertion-order" if [unparse(k) for k, _ in a[1]] != [unparse(k) for k, _ in b[1]] else "Map~Map"
+            # the same entries: the two maps can only differ in the order they iterate in (insertion
+            # order of an IndexMap or of a user-defined map object vs. key order of a BTreeMap)
+            return "map-insertion-order"
         for (k1, v1), (k2, v2) in zip(a[1], b[1]):
             if unparse(k1) != unparse(k2):
                 return first_diff(k1, k2)
@@ -131,7 +136,7 @@ def check_mode(r, mode, exe):
         r.broken.append(f"harness c07 [{feats}] exited {rc}: {err[-300:]}")
         return
     lines = out.splitlines()
-    drv_lines = [l for l in lines if l.split(" ", 1)[0] in ("val", "pair", "batch", "slicef") or l.startswith("lk vm ")]
+    drv_lines = [l for l in lines if l.split(" ", 1)[0] in ("val", "pair", "rval", "rpair", "fa", "fv", "batch", "slicef") or l.startswith("lk vm ")]
     model = r.driver("drive_c07", "\n".join(drv_lines) + "\n", args=[mode])
     if model is None or len(model) != len(drv_lines):
         r.broken.append(f"[{feats}] model driver output does not line up with the harness cases")
@@ -141,12 +146,131 @@ def check_mode(r, mode, exe):
         for dl, ml in zip(drv_lines, model):
             model_of[dl.split("\t")[0]] = ml.split("\t")[1] if "\t" in ml else "bad-line"
 
-    vals, trees, M, tpl = {}, {}, {}, {}
-    skip_vals = set()
+    class Zoo:
+        def __init__(self, tag):
+            self.tag, self.vals, self.trees, self.M, self.tpl, self.skip = tag, {}, {}, {}, {}, set()
+    zoo = Zoo("")
+    batches = {}
+    vals, trees, M, tpl, skip_vals = zoo.vals, zoo.trees, zoo.M, zoo.tpl, zoo.skip
     sfx = "" if mode == "btree" else "[preserve_order]"
 
     def pv(i, j):
         return f"pairv {vals[i]} {vals[j]}"
+
+    def handle_val(z, i, enc_, res, case):
+        z.vals[i] = enc_
+        z.trees[i] = parse(enc_)
+        rf = res.split()
+        r.count(("val", mode, enc_), True)
+        r.hist["zoo-kind" if not z.tag else "random-kind"][rf[0]] += 1
+        nan = has_nan(z.trees[i])
+        d = dict(x.split("=") for x in rf[1:]) if rf[0] != "panic" else {}
+        cv = f"valv {enc_}"
+        if rf[0] == "panic":
+            r.oracle_failure(cv, f"[{feats}] comparing a value with itself panics", "panic:self")
+            return
+        want_eq = "0" if nan else "1"
+        if d["selfcmp"] != "E" or d["clonecmp"] != "E":
+            r.oracle_failure(cv, f"[{feats}] cmp is not reflexive: {res}", "refl:" + rf[0])
+        if d["clonehash"] != "1" and "<!" not in enc_:   # (hashing a one-shot iterator consumes it)
+            r.oracle_failure(cv, f"[{feats}] a clone hashes differently: {res}", "clone-hash:" + rf[0])
+        if not nan and (d["selfeq"] != want_eq or d["cloneeq"] != want_eq):
+            r.oracle_failure(cv, f"[{feats}] == is not reflexive: {res}", "eq-refl:" + rf[0])
+        m = model_of.get(case)
+        if m is not None and m != "nomodel":
+            mf = m.split()
+            md = dict(x.split("=") for x in mf[1:]) if len(mf) > 1 else {}
+            if mf[0] != rf[0]:
+                r.model_disagreement(cv, res, m)
+            elif md.get("len") != d.get("len"):
+                # the map does not hold the pairs it was built from (keys pairwise non-Equal under Ord)
+                z.skip.add(i)
+                ks = [k for k, _ in z.trees[i][1]]
+                fd = first_diff(ks[0], ks[1]) if len(ks) > 1 else "?"
+                r.oracle_failure(cv, f"[{feats}] a map built from {md.get('len')} pairs whose keys are pairwise unequal under Ord holds {d.get('len')} entries",
+                                 "map-lost-entry:" + fd)
+            elif not nan and (md.get("selfeq") != d["selfeq"] or md.get("selfcmp") != d["selfcmp"]):
+                r.model_disagreement(cv, res, m)
+
+    def check_matrix(z, keyfmt):
+        """the order / equality / hash laws on the full matrix of one zoo, and the model correspondence"""
+        vals, trees, M, skip = z.vals, z.trees, z.M, z.skip
+        def pvz(i, j):
+            return f"pairv {vals[i]} {vals[j]}"
+        kind = {i: top_kind(trees[i]) for i in vals}
+        nan = {i: has_nan(trees[i]) for i in vals}
+        for (i, j), toks in M.items():
+            c, e, h = toks[:3]
+            r.count(("pair", mode, vals[i], vals[j]), i != j)
+            r.hist["cmp"][c] += 1
+            if not z.tag:
+                r.hist["pair-kinds"]["~".join(sorted([kind[i], kind[j]]))] += 1
+            if i in skip or j in skip:
+                continue
+            c2, e2, h2 = M[(j, i)][:3]
+            fd = None
+
+            def site(law):
+                nonlocal fd
+                if fd is None:
+                    fd = first_diff(trees[i], trees[j])
+                return f"{law}:{fd}"
+            if "P" in (c, e, h):
+                r.oracle_failure(pvz(i, j), f"[{feats}] cmp/==/hash panics: {c} {e} {h}", site("panic"))
+                continue
+            for extra in toks[3:]:
+                r.oracle_failure(pvz(i, j), f"[{feats}] the derived operators of PartialOrd/PartialEq disagree with cmp/==: {extra}", site("derived-op:" + extra))
+            if c2 != REV[c]:
+                r.oracle_failure(pvz(i, j), f"[{feats}] cmp(a,b)={c} but cmp(b,a)={c2}", site("antisym"))
+            if e != e2:
+                r.oracle_failure(pvz(i, j), f"[{feats}] (a==b)={e} but (b==a)={e2}", site("eq-sym"))
+            if not (nan[i] or nan[j]) and (e == "1") != (c == "E"):
+                r.oracle_failure(pvz(i, j), f"[{feats}] (a==b)={e} but cmp(a,b)={c}", site("eq-vs-cmp"))
+            if e == "1" and h != "1":
+                r.oracle_failure(pvz(i, j), f"[{feats}] a==b but the hashes differ", site("eq-vs-hash"))
+            m = model_of.get(keyfmt.format(i=i, j=j))
+            ck = "correspondence" + ("-random" if z.tag else "") + sfx
+            if m is not None:
+                mf = m.split()
+                if m == "nomodel":
+                    r.hist[ck]["not modelled (custom_cmp / invalid values): laws only"] += 1
+                elif len(mf) == 4 and mf[3] == "h":
+                    r.hist[ck]["hash-layout-dependent (skipped)"] += 1
+                elif mf[:3] != [c, e, h]:
+                    r.model_disagreement(pvz(i, j), f"{c} {e} {h}", m)
+                else:
+                    r.hist[ck]["agree"] += 1
+        # a total preorder is exactly an order induced by a rank function: rank = number of strictly smaller
+        idx = [i for i in sorted(vals) if i not in skip]
+        if any((i, j) not in M for i in idx for j in idx):
+            r.broken.append(f"[{feats}] pair matrix of zoo `{z.tag}` is incomplete")
+            return idx
+        rank = {i: sum(1 for j in idx if M[(i, j)][0] == "G") for i in idx}
+        bad = []
+        for i in idx:
+            for j in idx:
+                want = "L" if rank[i] < rank[j] else "G" if rank[i] > rank[j] else "E"
+                if M[(i, j)][0] != want:
+                    bad.append((i, j))
+
+        def viol(x, y, zz):
+            cxy, cyz, cxz = M[(x, y)][0], M[(y, zz)][0], M[(x, zz)][0]
+            if cxy in "LE" and cyz in "LE":
+                return cxz != ("E" if cxy == "E" and cyz == "E" else "L")
+            return False
+        for (i, j) in bad[:50]:
+            wit = None
+            for k in idx:
+                if any(viol(*p) for p in ((i, j, k), (i, k, j), (j, i, k), (j, k, i), (k, i, j), (k, j, i))):
+                    wit = k
+                    break
+            ks = sorted({kind[i], kind[j]} | ({kind[wit]} if wit is not None else set()))
+            what = f"[{feats}] cmp is not transitive: cmp(a,b)={M[(i, j)][0]}"
+            if wit is not None:
+                what += f", cmp(a,c)={M[(i, wit)][0]}, cmp(c,b)={M[(wit, j)][0]}, cmp(b,c)={M[(j, wit)][0]}"
+            r.oracle_failure(f"triple {vals[i]} {vals[j]} {vals[wit] if wit is not None else '?'}", what, "trans:" + "~".join(ks))
+        r.count(("rank-check", mode, z.tag), True, n=len(idx) ** 2)
+        return idx
 
     # ---------------------------------------------------------------- parse + per-line checks
     for line in lines:
@@ -155,40 +279,23 @@ def check_mode(r, mode, exe):
         st = f[0]
         r.hist["stream" + sfx][st] += 1
         if st == "val":
-            i = int(f[1])
-            vals[i] = f[2]
-            trees[i] = parse(f[2])
-            rf = res.split()
-            r.count(("val", mode, f[2]), True)
-            r.hist["zoo-kind"][rf[0]] += 1
-            nan = has_nan(trees[i])
-            d = dict(x.split("=") for x in rf[1:]) if rf[0] != "panic" else {}
-            cv = f"valv {f[2]}"
-            if rf[0] == "panic":
-                r.oracle_failure(cv, f"[{feats}] comparing a value with itself panics", "panic:self")
-                continue
-            want_eq = "0" if nan else "1"
-            if d["selfcmp"] != "E" or d["clonecmp"] != "E":
-                r.oracle_failure(cv, f"[{feats}] cmp is not reflexive: {res}", "refl:" + rf[0])
-            if d["clonehash"] != "1":
-                r.oracle_failure(cv, f"[{feats}] a clone hashes differently: {res}", "clone-hash:" + rf[0])
-            if not nan and (d["selfeq"] != want_eq or d["cloneeq"] != want_eq):
-                r.oracle_failure(cv, f"[{feats}] == is not reflexive: {res}", "eq-refl:" + rf[0])
+            handle_val(zoo, int(f[1]), f[2], res, case)
+        elif st == "rval":
+            z = batches.setdefault(f[1], Zoo("r" + f[1]))
+            handle_val(z, int(f[2]), f[3], res, case)
+        elif st == "rpair":
+            batches[f[1]].M[(int(f[2]), int(f[3]))] = res.split()
+        elif st == "fa":
+            pass
+        elif st == "fv":
+            r.count((st, mode, case), len(f) > 2 and len(f[-1] if f[1] not in ("sel", "cin") else f[-2]) >= 2)
+            r.hist["fv-filter" + sfx][f[1]] += 1
+            r.hist["fv-result"][res.split(":")[0] if ":" in res else res] += 1
+            if res == "panic":
+                r.oracle_failure(case, f"[{feats}] {f[1]} panics", f"panic:fv:{f[1]}")
             m = model_of.get(case)
-            if m is not None:
-                mf = m.split()
-                md = dict(x.split("=") for x in mf[1:]) if len(mf) > 1 else {}
-                if mf[0] != rf[0]:
-                    r.model_disagreement(cv, res, m)
-                elif md.get("len") != d.get("len"):
-                    # the map does not hold the pairs it was built from (keys pairwise non-Equal under Ord)
-                    skip_vals.add(i)
-                    ks = [k for k, _ in trees[i][1]]
-                    fd = first_diff(ks[0], ks[1]) if len(ks) > 1 else "?"
-                    r.oracle_failure(cv, f"[{feats}] a map built from {md.get('len')} pairs whose keys are pairwise unequal under Ord holds {d.get('len')} entries",
-                                     "map-lost-entry:" + fd)
-                elif not nan and (md.get("selfeq") != d["selfeq"] or md.get("selfcmp") != d["selfcmp"]):
-                    r.model_disagreement(cv, res, m)
+            if m is not None and m != res:
+                r.model_disagreement(case, res, m)
         elif st == "pair":
             M[(int(f[1]), int(f[2]))] = res.split()
         elif st == "tpl":
@@ -249,76 +356,19 @@ def check_mode(r, mode, exe):
     r.extra["zoo_size"] = n
 
     # ---------------------------------------------------------------- pair laws + correspondence
-    kind = {i: top_kind(trees[i]) for i in vals}
     nan = {i: has_nan(trees[i]) for i in vals}
-    for (i, j), (c, e, h) in M.items():
-        r.count(("pair", mode, vals[i], vals[j]), i != j)
-        r.hist["cmp"][c] += 1
-        r.hist["pair-kinds"]["~".join(sorted([kind[i], kind[j]]))] += 1
-        if i in skip_vals or j in skip_vals:
-            continue
-        c2, e2, h2 = M[(j, i)]
-        fd = None
-
-        def site(law):
-            nonlocal fd
-            if fd is None:
-                fd = first_diff(trees[i], trees[j])
-            return f"{law}:{fd}"
-        if "P" in (c, e, h):
-            r.oracle_failure(pv(i, j), f"[{feats}] cmp/==/hash panics: {c} {e} {h}", site("panic"))
-            continue
-        if c2 != REV[c]:
-            r.oracle_failure(pv(i, j), f"[{feats}] cmp(a,b)={c} but cmp(b,a)={c2}", site("antisym"))
-        if e != e2:
-            r.oracle_failure(pv(i, j), f"[{feats}] (a==b)={e} but (b==a)={e2}", site("eq-sym"))
-        if not (nan[i] or nan[j]) and (e == "1") != (c == "E"):
-            r.oracle_failure(pv(i, j), f"[{feats}] (a==b)={e} but cmp(a,b)={c}", site("eq-vs-cmp"))
-        if e == "1" and h != "1":
-            r.oracle_failure(pv(i, j), f"[{feats}] a==b but the hashes differ", site("eq-vs-hash"))
-        m = model_of.get(f"pair {i} {j}")
-        if m is not None:
-            mf = m.split()
-            if len(mf) == 4 and mf[3] == "h":
-                r.hist["correspondence" + sfx]["hash-layout-dependent (skipped)"] += 1
-            elif mf[:3] != [c, e, h]:
-                r.model_disagreement(pv(i, j), f"{c} {e} {h}", m)
-            else:
-                r.hist["correspondence" + sfx]["agree"] += 1
-    # a total preorder is exactly an order induced by a rank function: rank = number of strictly smaller
-    idx = [i for i in sorted(vals) if i not in skip_vals]
-    rank = {i: sum(1 for j in idx if M[(i, j)][0] == "G") for i in idx}
-    bad = []
-    for i in idx:
-        for j in idx:
-            want = "L" if rank[i] < rank[j] else "G" if rank[i] > rank[j] else "E"
-            if M[(i, j)][0] != want:
-                bad.append((i, j))
-    def viol(x, y, z):
-        cxy, cyz, cxz = M[(x, y)][0], M[(y, z)][0], M[(x, z)][0]
-        if cxy in "LE" and cyz in "LE":
-            return cxz != ("E" if cxy == "E" and cyz == "E" else "L")
-        return False
-    for (i, j) in bad[:50]:
-        # find a witness triple (some ordering of i, j and a third value breaks transitivity)
-        wit = None
-        for k in idx:
-            if any(viol(*p) for p in ((i, j, k), (i, k, j), (j, i, k), (j, k, i), (k, i, j), (k, j, i))):
-                wit = k
-                break
-        ks = sorted({kind[i], kind[j]} | ({kind[wit]} if wit is not None else set()))
-        what = f"[{feats}] cmp is not transitive: cmp(a,b)={M[(i, j)][0]}"
-        if wit is not None:
-            what += f", cmp(a,c)={M[(i, wit)][0]}, cmp(c,b)={M[(wit, j)][0]}, cmp(b,c)={M[(j, wit)][0]}"
-        r.oracle_failure(f"triple {vals[i]} {vals[j]} {vals[wit] if wit is not None else '?'}", what, "trans:" + "~".join(ks))
-    r.count(("rank-check", mode), True, n=len(idx) ** 2)
+    idx = check_matrix(zoo, "pair {i} {j}")
+    for b, z in sorted(batches.items()):
+        check_matrix(z, "rpair " + b + " {i} {j}")
+    r.extra["random_batches"] = len(batches)
+    r.extra["random_values"] = sum(len(z.vals) for z in batches.values())
 
     # ---------------------------------------------------------------- template operators
     for (i, j), t in tpl.items():
         r.count(("tpl", mode, vals[i], vals[j]), i != j, n=len(TPL_NAMES))
         if i in skip_vals or j in skip_vals:
             continue
-        c, e, h = M[(i, j)]
+        c, e, h = M[(i, j)][:3]
         if "P" in (c, e, h):
             continue
         exp = [str(int(c == "L")), e, e, None, None, str(int(c in "LE")), str(int(c == "G")), None, None]
